@@ -10,18 +10,18 @@
   `qrenc-total` (no call may panic) and by the correspondence of whole calls; its totality is not a theorem.
 -/
 import Gzx.Proofs.QREncEncode
-import Gzx.Proofs.QREncFuncAll
+import Gzx.Proofs.QREncFuncAll40
 namespace Gzx.Properties.C12QR
 open Gzx Gzx.QRRef Gzx.QREnc
 
-/-- `mirror_encodeBack_total_partial`: for every version 1..40 (given `FuncOK v`; 1..10: `funcOK_small`), every
-    level, every payload of any length and every mask hint, `encodeBack` is `.ok _` or the checked error
-    "data bits cannot fit in the QR Code" — never a panic, never out of fuel. -/
-theorem mirror_encodeBack_total_partial {K : Kernels} (hK : KernelsOK K) (v : Nat) (h1 : 1 ≤ v) (h40 : v ≤ 40)
-    (hf : FuncOK v) (maskHint : Option HintVal) (f : FrontResult) (hv : f.version = versionInfo v) :
+/-- `mirror_encodeBack_total`: for every version 1..40, every level, every payload of any length and every mask
+    hint, `encodeBack` is `.ok _` or the checked error "data bits cannot fit in the QR Code" — never a panic, never
+    out of fuel. -/
+theorem mirror_encodeBack_total {K : Kernels} (hK : KernelsOK K) (v : Nat) (h1 : 1 ≤ v) (h40 : v ≤ 40)
+    (maskHint : Option HintVal) (f : FrontResult) (hv : f.version = versionInfo v) :
     (∃ t, encodeBack K maskHint f = .ok t) ∨ encodeBack K maskHint f = .error .writer := by
   by_cases hfit : f.headerAndDataBits.length ≤ 8 * dataCodewords v f.ec
-  · obtain ⟨t, ht, _⟩ := encodeBack_eq_ref hK v h1 h40 hf maskHint f hv hfit
+  · obtain ⟨t, ht, _⟩ := encodeBack_eq_ref hK v h1 h40 (funcOK_all v h1 h40) maskHint f hv hfit
     exact Or.inl ⟨t, ht⟩
   · right
     obtain ⟨b, hb, hnb, hnd, htotal⟩ := ecBlocks_facts v h1 h40 f.ec
@@ -30,12 +30,6 @@ theorem mirror_encodeBack_total_partial {K : Kernels} (hK : KernelsOK K) (v : Na
     rw [htotal] at hnd
     simp only [bind, Except.bind, htotal, hnd]
     rw [terminateBits_refuses _ _ (by omega)]
-
-/-- versions 1..10 without further hypothesis -/
-theorem mirror_encodeBack_total {K : Kernels} (hK : KernelsOK K) (v : Nat) (h1 : 1 ≤ v) (h10 : v ≤ 10)
-    (maskHint : Option HintVal) (f : FrontResult) (hv : f.version = versionInfo v) :
-    (∃ t, encodeBack K maskHint f = .ok t) ∨ encodeBack K maskHint f = .error .writer :=
-  mirror_encodeBack_total_partial hK v h1 (by omega) (funcOK_small v h1 h10) maskHint f hv
 
 example : ∃ f : FrontResult, f.version = versionInfo 3 :=
   ⟨⟨.M, .byte, [], [], versionInfo 3, List.replicate 5000 true⟩, rfl⟩
